@@ -264,6 +264,15 @@ func RunLockstep(c *Case, pick func(n int) int, hk *Hooks) *Outcome {
 		return out
 	}
 
+	// an instance that does not come to rest and has meanwhile produced tens
+	// of thousands of traces (a whole conforming run of the largest generated
+	// program stays below two thousand) is not slow, it is running in circles
+	livelock := func(stage string, qerr error) *Outcome {
+		if n := in.TraceCount(); n > 50000 {
+			return fail("livelock", fmt.Sprintf("%s: the instance does not come to rest and has produced %d traces so far (it runs in circles): %.600s", stage, n, qerr.Error()), nil)
+		}
+		return nil
+	}
 	// pending engine requests by node id (FIFO)
 	pend := map[string][]bpmn.TaskTrace{}
 	kindOf := map[string]string{}
@@ -426,6 +435,9 @@ func RunLockstep(c *Case, pick func(n int) int, hk *Hooks) *Outcome {
 		obs = m.Answer(pi, ans)
 		gs, qerr = in.Quiesce()
 		if qerr != nil {
+			if o := livelock("after answering "+node, qerr); o != nil {
+				return o
+			}
 			out.Inconcl = "after answering " + node + ": " + qerr.Error()
 			return out
 		}
@@ -458,6 +470,9 @@ func RunLockstep(c *Case, pick func(n int) int, hk *Hooks) *Outcome {
 	gs, qerr = in.Quiesce()
 	if qerr != nil {
 		wcancel()
+		if o := livelock("at the end", qerr); o != nil {
+			return o
+		}
 		out.Inconcl = "final: " + qerr.Error()
 		return out
 	}
